@@ -416,6 +416,10 @@ func runCase(run *vf.Run, raw json.RawMessage, dir string) *vf.Result {
 		res.HarnessErr = "supervisor log: " + lerr.Error()
 		return res
 	}
+	if code >= 200 && code <= 203 {
+		res.HarnessErr = fmt.Sprintf("supervisor failed (exit %d: 200 usage, 201 cannot trace, 202 exec failed, 203 interrupted)", code)
+		return res
+	}
 	if !pl.Killed || len(pl.Events) != s.N {
 		// died on its own: that is a crash of the litestream process, not a kill
 		res.Evals++
